@@ -30,7 +30,7 @@ INF == 1000000000
 (* Symbol information.  SymOf applies the compatibility mapping; Info is   *)
 (* the classified symbol with the atom's capacity under Table resolved.    *)
 (***************************************************************************)
-SymOf(tok) == IF Compat THEN Modernize(tok) ELSE tok
+SymOfC(c, tok) == IF c THEN Modernize(tok) ELSE tok
 RawInfo(sym) ==
   LET c == Classify(sym)
   IN IF c.k = "atom"
@@ -42,15 +42,16 @@ RawInfo(sym) ==
 (* KnownSyms are classified once (TLC evaluates constant definitions once). *)
 InfoTable == [s \in KnownSyms |-> RawInfo(s)]
 InfoSym(sym) == IF sym \in KnownSyms THEN InfoTable[sym] ELSE RawInfo(sym)
-Info(tok) == InfoSym(SymOf(tok))
+InfoC(c, tok) == InfoSym(SymOfC(c, tok))
 
 (***************************************************************************)
 (* State                                                                   *)
 (***************************************************************************)
 RootFrame == [state |-> 0, prev |-> 0, end |-> INF, attr |-> <<>>]
 
-InitState(inp, closed) ==
+InitStateC(inp, closed, compat) ==
   [ inp    |-> inp,        \* tokens: bracketed symbols, "[nop]", "."
+    compat |-> compat,     \* the compatible=True flag of this call
     closed |-> closed,     \* no more tokens will be supplied
     rp     |-> 0,          \* tokens consumed (including "." and [nop])
     pos    |-> 0,          \* symbols counted in the current fragment (incl. phantom index symbols)
@@ -73,6 +74,9 @@ InitState(inp, closed) ==
     nopen  |-> 0,          \* rings opened so far
     otok   |-> <<>>,       \* per written atom token: [atom, end, tok]
     labels |-> <<>> ]      \* every label written, in order: [bond, lab]
+InitState(inp, closed) == InitStateC(inp, closed, Compat)
+SymOf(d, tok) == SymOfC(d.compat, tok)
+Info(d, tok)  == InfoC(d.compat, tok)
 
 Top(d) == d.stack[Len(d.stack)]
 SetTop(d, f) == [d.stack EXCEPT ![Len(d.stack)] = f]
@@ -103,7 +107,7 @@ Kind(d) ==
          THEN IF Waiting(d) THEN "wait"
               ELSE IF FragEnd(d) THEN "Pop"
               ELSE IF Tok(d) = "[nop]" THEN "Nop"
-              ELSE LET k == Info(Tok(d)).k
+              ELSE LET k == Info(d, Tok(d)).k
                    IN CASE k = "atom" -> "ReadAtom" [] k = "branch" -> "ReadBranch"
                         [] k = "ring" -> "ReadRing" [] k = "eps" -> "ReadEps"
                         [] k = "fuzzy" -> "ReadFuzzy" [] OTHER -> "ReadInvalid"
@@ -130,13 +134,13 @@ SymIndex(d) == d.nsym + d.fpos           \* global position of the symbol being 
 DoNop(d) == [d EXCEPT !.rp = @ + 1]
 
 DoReadAtom(d) ==
-  LET s    == Info(Tok(d))
+  LET s    == Info(d, Tok(d))
       st   == Top(d).state
       bo   == IF st = 0 THEN 0 ELSE Min(Min(s.order, st), s.cap)
       left == s.cap - bo
       ns   == IF left = 0 THEN -1 ELSE left
       n    == Len(d.atoms) + 1
-      at   == Top(d).attr \o <<[idx |-> SymIndex(d), sym |-> SymOf(Tok(d))]>>
+      at   == Top(d).attr \o <<[idx |-> SymIndex(d), sym |-> SymOf(d, Tok(d))]>>
       c    == Consume(d)
   IN IF bo = 0 /\ st # 0
      THEN [c EXCEPT !.stack = SetTop(d, [Top(d) EXCEPT !.state = ns])]       \* no room: atom dropped
@@ -151,14 +155,14 @@ DoReadAtom(d) ==
             !.stack = SetTop(d, [Top(d) EXCEPT !.state = ns, !.prev = n])]
 
 DoReadBranch(d) ==
-  LET s == Info(Tok(d))  c == Consume(d)
+  LET s == Info(d, Tok(d))  c == Consume(d)
   IN IF Top(d).state <= 1 THEN c
      ELSE [c EXCEPT !.pc = "index", !.need = s.n, !.acc = 0,
                     !.pend = [k |-> "branch", order |-> s.order,
-                              at |-> [idx |-> SymIndex(d), sym |-> SymOf(Tok(d))]]]
+                              at |-> [idx |-> SymIndex(d), sym |-> SymOf(d, Tok(d))]]]
 
 DoReadRing(d) ==
-  LET s == Info(Tok(d))  c == Consume(d)
+  LET s == Info(d, Tok(d))  c == Consume(d)
   IN IF Top(d).state = 0 THEN c
      ELSE [c EXCEPT !.pc = "index", !.need = s.n, !.acc = 0,
                     !.pend = [k |-> "ring", order |-> s.order, ls |-> s.ls, rs |-> s.rs]]
@@ -170,7 +174,7 @@ DoReadFuzzy(d) == [DoReadEps(d) EXCEPT !.fuzzy = TRUE]
 DoReadInvalid(d) == [Consume(d) EXCEPT !.pc = "error"]
 
 DoReadIndex(d) ==
-  [Consume(d) EXCEPT !.acc = 16 * @ + IndexCode(SymOf(Tok(d))), !.need = @ - 1]
+  [Consume(d) EXCEPT !.acc = 16 * @ + IndexCode(SymOf(d, Tok(d))), !.need = @ - 1]
 DoPhantomIndex(d) ==       \* a missing symbol at the end of the fragment counts as digit 0
   [d EXCEPT !.pos = @ + 1, !.acc = 16 * @, !.need = @ - 1]
 
